@@ -1710,6 +1710,10 @@ outer:
 		if len(a.Elements) == len(b.Elements) && a.Inverted != b.Inverted {
 			return false
 		}
+		if len(a.Elements) < len(b.Elements) && a.Inverted {
+			// a requires its last element not to match, b requires it to match
+			return false
+		}
 		*dcs = append((*dcs)[:i-1], (*dcs)[i:]...)
 		i--
 	}
